@@ -12,8 +12,9 @@
    Not modelled: the download cache and deltas (switched off in the driver too), context cancellation, the
    transfer speed monitor, rate limiting, errors of the local file system calls (open, seek, truncate, rename, sync).
 
-   The flag [trunc] selects between the code as it is ([false]) and the repair proposed in notes/C31-fix.diff
-   ([true]: truncate the file where the Go code only seeks back to 0 because the server ignored Range). *)
+   The flag [trunc]: [true] is the code as it is since commit adc145b (the file is truncated where the position is
+   reset because the server ignored Range: `t.Truncate(0)` after `w.Seek(0, io.SeekStart)`); [false] is the code
+   before that repair (seek only), kept for the historical counterexample. *)
 From Coq Require Import List NArith Bool Arith.
 Import ListNotations.
 Require Import V.lib.Bytes.
@@ -82,7 +83,7 @@ Fixpoint dl_loop (trunc : bool) (r : nat) (script : list beh) (expected f : byte
       let honoured := ranged && hr in
       let st := if honoured then 206 else status in
       let payload := if honoured then skipn resume body else body in
-      (* if resume > 0 && resp.StatusCode != 206 { w.Seek(0, Start); h = New(); resume = 0 }   -- no truncation *)
+      (* if resume > 0 && resp.StatusCode != 206 { w.Seek(0, Start); w.Truncate(0) [trunc]; h = New(); resume = 0 } *)
       let reset := ranged && negb (st =? 206) in
       let f1 := if reset && trunc then [] else f in
       let h1 := if reset then [] else h0 in
@@ -136,8 +137,8 @@ Definition download_gen (trunc : bool) (size : N) (expected partial : bytes) (le
             o_partial := if leave && negb (is_nil_b f2) then Some f2 else None |}  (* deferred cleanup *)
   end.
 
-Definition download := download_gen false.        (* the code as it is *)
-Definition download_fixed := download_gen true.   (* with the repair of notes/C31-fix.diff *)
+Definition download := download_gen true.               (* the code as it is (since commit adc145b) *)
+Definition download_before_fix := download_gen false.   (* the code before the repair: historical counterexample only *)
 
 (* Guard of the conditional theorem: a response never carries more than [sz] bytes (the declared size), and the
    status 206 is only sent when the requested range is really honoured. *)
